@@ -53,6 +53,8 @@ type Control struct {
 	reqs    map[string]*reqState
 	owner   map[string]string // lock name ("map" or key name) -> rid holding it
 	Deviate []string
+	// StartFn launches a request that the schedule has not started yet.
+	StartFn func(rid string)
 	// Blocked records "rid blocked on lock held by rid" observations.
 	Blocked []string
 }
@@ -134,8 +136,9 @@ func (c *Control) Point(rid, site, key string) string {
 
 // ---- scheduler ----
 
-// StartGating switches the scheduler on for the given request ids.
-func (c *Control) StartGating(rids []string) {
+// StartGating switches the scheduler on for the given request ids; requests in lazy are only
+// launched when the schedule says so (token site "start") or when the schedule is exhausted.
+func (c *Control) StartGating(rids []string, lazy map[string]bool) {
 	c.mu.Lock()
 	c.gating = true
 	c.reqs = map[string]*reqState{}
@@ -144,8 +147,21 @@ func (c *Control) StartGating(rids []string) {
 	c.Blocked = nil
 	for _, r := range rids {
 		c.reqs[r] = &reqState{status: "running"}
+		if lazy[r] {
+			c.reqs[r].status = "unstarted"
+		}
 	}
 	c.mu.Unlock()
+}
+
+func (c *Control) startLocked(rid string) {
+	s := c.reqs[rid]
+	if s != nil && s.status == "unstarted" {
+		s.status = "running"
+		if c.StartFn != nil {
+			go c.StartFn(rid)
+		}
+	}
 }
 
 // StopGating switches the scheduler off and releases everything parked.
@@ -221,7 +237,7 @@ func (c *Control) Done(rid string) {
 // stable reports, under c.mu, whether request state s cannot change without scheduler action.
 func (c *Control) stableLocked(rid string, s *reqState) bool {
 	switch s.status {
-	case "parked", "done":
+	case "parked", "done", "unstarted":
 		return true
 	case "lockwait":
 		o, held := c.owner[s.key]
@@ -309,7 +325,7 @@ func (c *Control) RunSchedule(tokens []Token) SchedResult {
 			if s.status != "done" {
 				done = false
 			}
-			if s.status == "parked" {
+			if s.status == "parked" || s.status == "unstarted" {
 				anyParked = true
 			}
 			if s.status == "lockwait" {
@@ -319,7 +335,13 @@ func (c *Control) RunSchedule(tokens []Token) SchedResult {
 		return done, !done && !anyParked && anyBlocked
 	}
 	for _, t := range tokens {
-		// Advance t.Rid until it has passed gate (t.Site, t.Key).
+		if t.Site == "start" {
+			c.mu.Lock()
+			c.startLocked(t.Rid)
+			c.mu.Unlock()
+			continue
+		}
+		// Advance t.Rid until it has passed gate (t.Site, t.Key); site "done" = until it has finished.
 		for steps := 0; steps < 64; steps++ {
 			if !c.waitStable(to) {
 				res.Stuck = true
@@ -328,6 +350,10 @@ func (c *Control) RunSchedule(tokens []Token) SchedResult {
 			noteBlocked()
 			c.mu.Lock()
 			s := c.reqs[t.Rid]
+			if s != nil && s.status == "done" && t.Site == "done" {
+				c.mu.Unlock()
+				break
+			}
 			if s == nil || s.status != "parked" {
 				st := "unknown"
 				if s != nil {
@@ -374,11 +400,15 @@ func (c *Control) RunSchedule(tokens []Token) SchedResult {
 		c.mu.Lock()
 		pick := ""
 		for r, s := range c.reqs {
-			if s.status == "parked" && (pick == "" || r < pick) {
+			if (s.status == "parked" || s.status == "unstarted") && (pick == "" || r < pick) {
 				pick = r
 			}
 		}
-		c.releaseLocked(pick)
+		if pick != "" && c.reqs[pick].status == "unstarted" {
+			c.startLocked(pick)
+		} else {
+			c.releaseLocked(pick)
+		}
 		c.mu.Unlock()
 	}
 	res.Stuck = true
